@@ -6,7 +6,7 @@ for f in sorted(glob.glob("/verif/seeded/*/meta.json")):
     m = json.load(open(f))
     pid = os.path.basename(os.path.dirname(f))
     res = m.get("checks_on_changed_tree", {})
-    own = res.get(pid, {})
+    own = res.get(pid[:3], {})
     how = []
     for c, r in res.items():
         if r["exit"] == 1:
